@@ -56,6 +56,16 @@ Definition resolve_include (filename inc : bytes) : result bytes :=
   if negb (contain_test inc_kind root p) then Err IncludeOutside
   else if negb (isfile p) then Err IncludeNotFound
   else Ok p.
+
+(* what the resolution of one include line touches: os.path.isfile(p) once the containment test passed,
+   then open(p) when it is a file; the flag tells whether an exception is raised.  An event is
+   (false, p) for a probe, (true, p) for an open *)
+Definition include_accesses (filename inc : bytes) : list (bool * bytes) * bool :=
+  let root := get_root_include_path filename in
+  let p := include_full_path filename inc in
+  if negb (contain_test inc_kind root p) then ([], true)
+  else if negb (isfile p) then ([(false, p)], true)
+  else ([(false, p); (true, p)], false).
 End Root.
 
 (* ------------------------------------------------------------------ part 2: recogniser and splice *)
@@ -199,17 +209,22 @@ Definition yielded (nl_kind : Z) (l : bytes) : bytes :=
 
 Section Splice.
 Variable nl_kind : Z.
-Variable resolve : bytes -> result bytes.            (* inc_path+ext -> full path (part 1) *)
+Variable have_root : bool.                            (* filename is not None: the assert at the first include line *)
+Variable decode : bytes -> result bytes.             (* the captured name (P8SCII bytes) -> the file name (UTF-8 bytes) *)
+Variable resolve : bytes -> result bytes.            (* file name + extension -> full path (part 1) *)
 Variable target : bytes -> bytes -> option (list bytes).   (* full path, extension -> lines the target yields *)
 
 Definition is_cart_ext (ext : bytes) : bool := zlist_eqb ext ext_p8 || zlist_eqb ext ext_p8png.
 
 Definition include_lines (path ext : bytes) (tab : option Z) : result (list bytes) :=
-  p <- resolve (path ++ ext) ;;
-  match target p ext with
-  | None => Err OtherError      (* isfile said yes but the file cannot be read / is not a cart: not modelled *)
-  | Some ls => Ok (map (yielded nl_kind) (if is_cart_ext ext then lines_for_tab ls tab else ls))
-  end.
+  if negb have_root then Err AssertionError
+  else
+    nm <- decode path ;;
+    p <- resolve (nm ++ ext) ;;
+    match target p ext with
+    | None => Err OtherError      (* isfile said yes but the file cannot be read / is not a cart: not modelled *)
+    | Some ls => Ok (map (yielded nl_kind) (if is_cart_ext ext then lines_for_tab ls tab else ls))
+    end.
 
 Fixpoint process_includes (lines : list bytes) : result (list bytes) :=
   match lines with
